@@ -29,7 +29,7 @@ ENCODED = [admission.build_response, admission.serve_admission_request, registri
 META = {
     'bounds': 'H1: <=3 outcomes with symbolic error kind (none/AdmissionError(code symbolic)/Permanent/Temporary/other) and <=2 '
               'warnings. H2: one handler with symbolic (id hint, reason hint, handler reason, operation in CREATE/UPDATE/DELETE/CONNECT, '
-              'handler operations set, subresource pair). H3: reviewed object template spec={a: X, keep: 1}, X in '
+              'handler operations set, subresource pair, optional field filter with old/new field values in absent|x|y). H3: reviewed object template spec={a: X, keep: 1}, X in '
               'absent|int|str|list|{b:int}|{b:int,c:int}; patch template for spec.a in untouched|null|int|str|list|{b:int}|{b:null}|{d:int}|{}; '
               'keys with "/" and "~" (cell); transformation fns subset of {append finalizer, set label}.',
     'outside': 'webhook servers/tunnels (HTTP, TLS), the per-request operations filter (enforced by the generated webhook '
@@ -100,10 +100,15 @@ def h_response(n: int, k0: int, k1: int, k2: int, c0: int, c1: int, c2: int, nw:
 OPS = ['CREATE', 'UPDATE', 'DELETE', 'CONNECT']
 
 
-def h_select(hint_id: int, hint_reason: int, hreason: bool, op: int, hops: int, hsub: int, csub: int, lab: int, has_label: bool) -> bool:
+def _is_x(value, **_):
+    return value == 'x'
+
+
+def h_select(hint_id: int, hint_reason: int, hreason: bool, op: int, hops: int, hsub: int, csub: int, lab: int, has_label: bool,
+             f_new: int, f_old: int) -> bool:
     """
     pre: 0 <= hint_id <= 2 and 0 <= hint_reason <= 2 and 0 <= op <= 3 and 0 <= hops <= 3
-    pre: 0 <= hsub <= 2 and 0 <= csub <= 1 and 0 <= lab <= 2
+    pre: 0 <= hsub <= 2 and 0 <= csub <= 1 and 0 <= lab <= 2 and 0 <= f_new <= 2 and 0 <= f_old <= 2
     post: _ == True
     """
     vkopf.begin_path()
@@ -114,20 +119,40 @@ def h_select(hint_id: int, hint_reason: int, hreason: bool, op: int, hops: int, 
     subs = [None, 'scale', '*']
     labels = [None, {'app': 'x'}, {'app': kopf.ABSENT}][lab]
     deco = kopf.on.mutate if hreason else kopf.on.validate
+    # an optional field filter (per cell): 1 value='x', 2 PRESENT, 3 ABSENT, 4 callback, 5 field= alone
+    fcrit = vkopf.cell().get('fcrit', 0)
+    fkw = {}
+    if fcrit:
+        fkw['field'] = 'spec.f'
+        if fcrit != 5:
+            fkw['value'] = [None, 'x', kopf.PRESENT, kopf.ABSENT, _is_x][fcrit]
+    else:
+        f_new = f_old = 0
 
-    @deco(PLURAL, id='h', registry=registry, operations=ops_sets[hops], subresource=subs[hsub], labels=labels)
+    @deco(PLURAL, id='h', registry=registry, operations=ops_sets[hops], subresource=subs[hsub], labels=labels, **fkw)
     async def h(**kw):
         calls.append('h')
 
     resource = make_resource()
-    body = {'metadata': {'name': 'n', 'namespace': 'ns', 'labels': {'app': 'x'} if has_label else {}}}
+    FV = [None, 'x', 'y']
+
+    def obj(f):
+        o = {'metadata': {'name': 'n', 'namespace': 'ns', 'labels': {'app': 'x'} if has_label else {}}, 'spec': {'keep': 1}}
+        if FV[f] is not None:
+            o['spec']['f'] = FV[f]
+        return o
+    # CREATE/CONNECT carry the new object only, DELETE the old one only, UPDATE both; the reviewed object is the new one if any
+    new_o = None if OPS[op] == 'DELETE' else obj(f_new)
+    old_o = obj(f_old) if OPS[op] in ('UPDATE', 'DELETE') else None
+    body = new_o if new_o is not None else old_o
+    reviewed_f = FV[f_new] if new_o is not None else FV[f_old]
     reason_hint = [None, causes.WebhookType.VALIDATING, causes.WebhookType.MUTATING][hint_reason]
     webhook_hint = [None, 'h', 'other'][hint_id]
     cause = causes.WebhookCause(
         resource=resource, indices={}, logger=logging.getLogger('x'), patch=patches.Patch(), memo=ephemera.Memo(),
         body=kopf.Body(body) if hasattr(kopf, 'Body') else body, userinfo={}, warnings=[], operation=OPS[op],
         subresource=[None, 'scale'][csub], dryrun=False, sslpeer={}, headers={}, webhook=webhook_hint, reason=reason_hint,
-        old=None, new=None, diff=None)
+        old=kopf.Body(old_o) if old_o is not None else None, new=kopf.Body(new_o) if new_o is not None else None, diff=None)
     got = [x.id for x in registry._webhooks.get_handlers(cause)]
     my_reason = causes.WebhookType.MUTATING if hreason else causes.WebhookType.VALIDATING
     want = True
@@ -143,9 +168,16 @@ def h_select(hint_id: int, hint_reason: int, hreason: bool, op: int, hops: int, 
         want = False
     if lab == 2 and has_label:
         want = False
+    # field filters look at the reviewed object "in its current -- and only -- state" (docs/filters.rst)
+    if fcrit in (1, 4) and reviewed_f != 'x':
+        want = False
+    if fcrit in (2, 5) and reviewed_f is None:
+        want = False
+    if fcrit == 3 and reviewed_f is not None:
+        want = False
     if want:
         vkopf.witness('selected')
-    ok = got == (['h'] if want else [])
+    ok = got == ([('h/spec.f' if fcrit else 'h')] if want else [])     # (field handlers carry the field in their id)
     # the per-request operation filter lives in the generated webhook configuration:
     hooks = admission.build_webhooks(registry._webhooks.get_all_handlers(), resources=[resource], name_suffix='s',
                                      client_config={'url': 'https://x'})
@@ -272,15 +304,86 @@ def h_patch(bshape: int, bv: int, pshape: int, pv: int, fin: bool, lbl: bool, fa
     return vkopf.verdict(ok)
 
 
+# ------------------------------------------------------------------------------ H4 the whole review with several handlers
+def h_serve(ka: int, kb: int, ca: int, cb: int, b_mutates: bool, hint: int, same_id: bool) -> bool:
+    """
+    pre: 0 <= ka <= 4 and 0 <= kb <= 4 and 100 <= ca <= 599 and 100 <= cb <= 599 and 0 <= hint <= 2
+    post: _ == True
+    """
+    vkopf.begin_path()
+    c = vkopf.cell()
+    same_id = vkopf.pin('same_id', same_id)
+    # known finding F13: outcomes are keyed by handler id, so two selected handlers sharing an id mask each other
+    # (with one id both are selected whatever the hint says, unless the hint names another id)
+    f13 = same_id and hint != 2 and (ka != 0 or kb != 0)
+    if c.get('exclude_known', True) and f13:
+        return True
+    if c.get('only_f13') and not f13:
+        return True
+    registry = registries.OperatorRegistry()
+    ran = []
+
+    @kopf.on.validate(PLURAL, id='x', registry=registry)
+    async def a(**kw):
+        ran.append('a')
+        e = _exc(ka, ca, 'ma')
+        if e is not None:
+            raise e
+
+    deco = kopf.on.mutate if b_mutates else kopf.on.validate
+
+    @deco(PLURAL, id='x' if same_id else 'y', registry=registry)
+    async def b(**kw):
+        ran.append('b')
+        e = _exc(kb, cb, 'mb')
+        if e is not None:
+            raise e
+
+    resource = make_resource()
+    insights = references.Insights()
+    insights.webhook_resources.add(resource)
+    raw = {'apiVersion': f'{GROUP}/{VERSION}', 'kind': 'KopfExample', 'metadata': {'name': 'n', 'namespace': 'ns', 'uid': 'u1'}, 'spec': {'keep': 1}}
+    request = {'apiVersion': 'admission.k8s.io/v1', 'kind': 'AdmissionReview',
+               'request': {'uid': 'r1', 'operation': 'CREATE', 'userInfo': {'username': 'me'}, 'object': raw,
+                           'resource': {'group': GROUP, 'version': VERSION, 'resource': PLURAL}}}
+    webhook = [None, 'x', 'y'][hint]           # the id hint the built-in servers take from the URL
+    loop = SymLoop()
+
+    async def main():
+        return await admission.serve_admission_request(
+            request, settings=configuration.OperatorSettings(), memories=inventory.ResourceMemories(),
+            memobase=ephemera.Memo(), registry=registry, insights=insights, indices={}, webhook=webhook)
+    r = loop.run(main())['response']
+    sel_a = webhook in (None, 'x')
+    sel_b = webhook is None or webhook == ('x' if same_id else 'y')
+    ok = sorted(ran) == sorted((['a'] if sel_a else []) + (['b'] if sel_b else []))      # exactly the selected handlers run
+    raised = [(k, code, m) for (sel, k, code, m) in ((sel_a, ka, ca, 'ma'), (sel_b, kb, cb, 'mb')) if sel and k != 0]
+    if r['allowed'] != (not raised):
+        ok = False                                  # allowed if and only if no selected handler raised
+    if raised:
+        vkopf.witness('denied')
+        best = min(raised, key=lambda t: t[0])      # most specific error first; the first in order among equals
+        st = r.get('status') or {}
+        if r['allowed'] is False and (st.get('message') != best[2] or st.get('code') != (best[1] if best[0] == 1 else 500)):
+            ok = False
+    return vkopf.verdict(ok)
+
+
 def obligations():
     obs = split(Ob('h_response', {}, timeout=600, twins=['denied']), n=[0, 1, 2, 3])
     for (op, hops) in ((0, 0), (2, 1), (2, 2), (1, 3), (3, 0), (2, 0)):
         obs.append(Ob('h_select', {'pin': {'op': op, 'hops': hops}}, tiers=('quick',), timeout=900))
     obs.append(Ob('h_select', {}, tiers=('quick', 'thorough'), timeout=300, twins=['selected'], main=False))
+    for fcrit, op, hops in ((1, 1, 0), (3, 2, 1), (4, 1, 2), (3, 0, 0)):
+        obs.append(Ob('h_select', {'fcrit': fcrit, 'pin': {'op': op, 'hops': hops, 'hint_id': 0, 'hsub': 0}}, tiers=('quick',), timeout=900))
+    for fcrit in (1, 2, 3, 4, 5):
+        obs += split(Ob('h_select', {'fcrit': fcrit, 'pin': {'hint_id': 0, 'hsub': 0}}, timeout=900, tiers=('thorough',)), op=[0, 1, 2, 3], hops=[0, 1])
     obs += split(Ob('h_select', {}, timeout=900, tiers=('thorough',)), op=[0, 1, 2, 3], hops=[0, 1, 2, 3])
     for (bshape, pshape) in ((1, 5), (3, 6), (2, 8), (4, 6), (5, 7), (4, 1), (0, 5), (5, 4)):
         obs.append(Ob('h_patch', {'key': 'a', 'pin': {'bshape': bshape, 'pshape': pshape}}, tiers=('quick',), timeout=600))
     obs.append(Ob('h_patch', {'key': 'a'}, tiers=('quick', 'thorough'), timeout=300, twins=['mutated', 'mapping_over_scalar'], main=False))
     for key in ('a', 'x/y~z'):
         obs += split(Ob('h_patch', {'key': key}, timeout=900, tiers=('thorough',)), bshape=[0, 1, 2, 3, 4, 5], pshape=[0, 1, 2, 3, 4, 5, 6, 7, 8])
+    obs += split(Ob('h_serve', {}, timeout=600, twins=['denied']), same_id=[False, True])
+    obs.append(Ob('h_serve', {'exclude_known': False, 'only_f13': True, 'pin': {'same_id': True}}, expect='counterexample', finding='F13', timeout=300))
     return obs
